@@ -41,6 +41,14 @@ def make_spec(hist):
             "architecture": arch, "bindings": bind}
 
 
+def with_format(d):
+    """add a format section so that the history specification also compiles in metrics mode (full HiFiber pipeline)"""
+    d = copy.deepcopy(d)
+    d["format"] = {t: {"default": dict([("rank-order", list(ranks))] + [(r, {"format": "C", "cbits": 32, "pbits": 32}) for r in ranks])}
+                   for t, ranks in d["einsum"]["declaration"].items()}
+    return d
+
+
 def obs_of(hist):
     out = []
     for i, h in enumerate(hist):
@@ -69,15 +77,26 @@ def run_impl(spec):
 
 
 def gen_hist(rng, n):
+    """random history; later Einsums mostly keep the previous loop order / space split / configuration, so that long
+    blocks form and the component condition is the deciding one (first vs. third Einsum of a block, ...)"""
     hist = []
+    sticky = rng.random() < 0.7
     for _ in range(n):
-        loop = RANKS[:]
-        rng.shuffle(loop)
-        k = rng.choice([0, 0, 1, 1, 1, 2, 3])
-        space = rng.sample(loop, k)
-        cfg = rng.choice(["CfgA", "CfgA", "CfgB"])
+        if hist and sticky and rng.random() < 0.8:
+            loop, space = list(hist[-1]["loop"]), list(hist[-1]["space"])
+            if rng.random() < 0.15 and space:            # same prefix, different spatial tail
+                space = space[:1] + rng.sample([r for r in loop if r not in space[:1]], rng.randint(0, 1))
+        else:
+            loop = RANKS[:]
+            rng.shuffle(loop)
+            k = rng.choice([0, 0, 1, 1, 1, 2, 3])
+            space = rng.sample(loop, k)
+        if hist and sticky and rng.random() < 0.85:
+            cfg = hist[-1]["config"]
+        else:
+            cfg = rng.choice(["CfgA", "CfgA", "CfgB"])
         pool = [c + cfg[-1] for c in ("Mul0", "Mul1", "Add0", "Isect", "Mem")]
-        comps = [(c, rng.random() < 0.85) for c in rng.sample(pool, rng.randint(0, 3))]
+        comps = [(c, rng.random() < 0.85) for c in rng.sample(pool, rng.choice([0, 1, 1, 1, 2, 2, 3]))]
         hist.append(dict(loop=loop, space=space, config=cfg, comps=comps))
     return hist
 
@@ -222,6 +241,28 @@ def run(ctx, only=None):
         if not ok:
             ctx.violation(dict(kind="metrics-blocks-literal", spec=name, reported=reported, fusion_blocks=impl,
                                reason="metrics[\"blocks\"] in the emitted dump differs from the fusion blocks / Einsum list"), True)
+
+
+    # ... and of generated histories pushed through the whole metrics pipeline: dump literal = model blocks
+    if only is None:
+        rng = random.Random(ctx.seed * 31 + 5)
+        full, freqs = [], []
+        for _ in range(40 if ctx.tier == "quick" else 300):
+            hist = gen_hist(rng, rng.choice([2, 3, 3, 4, 5]))
+            d = with_format(make_spec(hist))
+            c = specs.compile_spec(d, "metrics")
+            if not c.ok:
+                ctx.stat("full_pipeline_" + str(c.err_kind)); continue
+            full.append((hist, d, dump_blocks_of(c)))
+            freqs.append({"op": "fusion", "obs": obs_of(hist), "impl_steps": [c.hf.fusion.get_blocks()]})
+        for (hist, d, reported), a in zip(full, common.lean_batch(freqs)):
+            if "error" in a:
+                raise common.InternalError("lean: " + a["error"])
+            ok = len(reported) >= 1 and reported[-1] == a["model_steps"][-1]
+            ctx.ob(ok); ctx.stat("full_pipeline_dumps")
+            if not ok:
+                ctx.violation(dict(kind="metrics-blocks-literal", history=obs_of(hist), yaml=d, reported=reported, model_blocks=a["model_steps"][-1],
+                                   reason="metrics[\"blocks\"] in the emitted dump is %r; the fusion conditions give %r" % (reported[-1:] or None, a["model_steps"][-1])), True)
 
 
 def replay(ctx, path):
